@@ -309,3 +309,5 @@ Fixpoint stream_scan (fuel : nat) (open_code : option bytes) (s : list sym) : bo
 (** zero or more complete, valid replies and nothing else *)
 Definition reply_stream_ok (b : bytes) : bool :=
   let s := syms_of_lit b in stream_scan (S (length s)) None s.
+
+Definition spec_ok_stream (ls : list bytes) : bool := reply_stream_ok (concat ls).
